@@ -199,6 +199,28 @@ def holdsInfo (tol : Q) (round : Bool) (axes : List Axis) (items : List (Loc × 
       | none => true
       | some e => infoAttrOk tol round j (fallback e) (obs.attrs.getD j none))
 
+/-! ### which sources are the masters of a glyph (declarative; the ORDER of the sources plays no role) -/
+
+/-- the glyph `name` of a source layer, if it has one -/
+def srcGlyph (s : Source) (name : String) : Option MGlyph :=
+  (s.glyphs.find? (fun g => g.name == name)).map (·.g)
+
+/-- the default source has the glyph and it is empty there (no contours, no components: `space`, anchor-only glyphs) -/
+def defaultGlyphEmpty (ds : DS) (di : Nat) (name : String) : Bool :=
+  match ds.sources[di]? with
+  | none => false
+  | some s => match srcGlyph s name with
+    | none => false
+    | some g => g.contours.isEmpty && g.comps.isEmpty
+
+/-- the masters of glyph `name`, in designspace order: every source that has the glyph; only when the default source's
+    glyph is NOT empty, sources where the glyph is empty are left out.  A source's membership depends on its own glyph
+    and on the default source's glyph - never on whether it is listed before or after the default source. -/
+def glyphMastersRef (ds : DS) (di : Nat) (name : String) : List (Loc × MGlyph) :=
+  ds.sources.filterMap (fun s =>
+    (srcGlyph s name).bind (fun g =>
+      if defaultGlyphEmpty ds di name || !(g.contours.isEmpty && g.comps.isEmpty) then some (nloc ds s.loc, g) else none))
+
 /-! ### which inputs must be accepted / must be rejected -/
 
 def uniqueLocs (locs : List Loc) : Bool := decide ((locs.map locKey).Nodup)
@@ -234,7 +256,9 @@ def mkCtx (ds : DS) (round : Bool) (inst : Instance) : Option Ctx :=
       let location := dictMerge (defaultDesignLoc ds) inst.loc
       some ⟨ds, round, inst, di, dsrc, location, nloc ds location⟩
 
-def Ctx.glyphItems (c : Ctx) (n : String) := collectGlyphMasters c.ds c.di n
+/-- the masters the property speaks about: the declarative `glyphMastersRef` (`Props.C19_collect_ref`: the model's
+    `collectGlyphMasters` computes exactly this list) -/
+def Ctx.glyphItems (c : Ctx) (n : String) := glyphMastersRef c.ds c.di n
 def Ctx.ws (c : Ctx) (locs : List Loc) := scalarsFor c.ds locs c.nl
 def Ctx.names (c : Ctx) : List String := c.dsrc.glyphs.map (·.name)
 def Ctx.swaps (c : Ctx) := specSwaps c.ds.rules c.location c.names
